@@ -14,12 +14,15 @@ type (
 	Process struct {
 		converterName  string
 		executablePath string
-		cmd            *exec.Cmd
 		input          chan []byte
 		output         chan []byte
 		stderrRing     *ring.Ring
 		stderrLock     sync.RWMutex
-		exitCode       int
+		// mutex guards cmd and exitCode, run() sets them on its own goroutine
+		// while Pid() and ExitCode() are called from other goroutines.
+		mutex    sync.Mutex
+		cmd      *exec.Cmd
+		exitCode int
 	}
 )
 
@@ -61,10 +64,20 @@ func (process *Process) Stderr() []string {
 }
 
 func (process *Process) ExitCode() int {
+	process.mutex.Lock()
+	defer process.mutex.Unlock()
 	return process.exitCode
 }
 
+func (process *Process) setExitCode(exitCode int) {
+	process.mutex.Lock()
+	defer process.mutex.Unlock()
+	process.exitCode = exitCode
+}
+
 func (process *Process) Pid() int {
+	process.mutex.Lock()
+	defer process.mutex.Unlock()
 	if process.cmd == nil || process.cmd.Process == nil {
 		return -1
 	}
@@ -73,8 +86,9 @@ func (process *Process) Pid() int {
 
 // Run until input channel is closed
 func (process *Process) run() {
-	process.cmd = exec.Command(process.executablePath)
-	stdout, err := process.cmd.StdoutPipe()
+	// the command becomes visible to Pid() once it is started
+	cmd := exec.Command(process.executablePath)
+	stdout, err := cmd.StdoutPipe()
 	if err != nil {
 		log.Printf("Converter (%s): Failed to create stdout pipe: %q", process.converterName, err)
 		close(process.output)
@@ -98,7 +112,7 @@ func (process *Process) run() {
 		close(process.output)
 	}()
 
-	stderr, err := process.cmd.StderrPipe()
+	stderr, err := cmd.StderrPipe()
 	if err != nil {
 		log.Printf("Converter (%s): Failed to create stderr pipe: %q", process.converterName, err)
 		stdout.Close()
@@ -126,7 +140,7 @@ func (process *Process) run() {
 		}
 	}()
 
-	stdin, err := process.cmd.StdinPipe()
+	stdin, err := cmd.StdinPipe()
 	if err != nil {
 		log.Printf("Converter (%s): Failed to create stdin pipe: %q", process.converterName, err)
 		stdout.Close()
@@ -138,7 +152,7 @@ func (process *Process) run() {
 		return
 	}
 
-	err = process.cmd.Start()
+	err = cmd.Start()
 	if err != nil {
 		log.Printf("Converter (%s): Failed to start process: %q", process.converterName, err)
 		stdout.Close()
@@ -150,19 +164,22 @@ func (process *Process) run() {
 		}
 		return
 	}
+	process.mutex.Lock()
+	process.cmd = cmd
+	process.mutex.Unlock()
 
 	for line := range process.input {
 		if _, err := stdin.Write(line); err != nil {
 			log.Printf("Converter (%s): Failed to write to stdin: %q", process.converterName, err)
 			// wait for process to exit and close std pipes.
-			if err := process.cmd.Wait(); err != nil {
+			if err := cmd.Wait(); err != nil {
 				if _, ok := err.(*exec.ExitError); !ok {
 					log.Printf("Converter (%s): Failed to wait for process: %q", process.converterName, err)
-					process.exitCode = -1
+					process.setExitCode(-1)
 				}
 			}
-			if process.cmd.ProcessState != nil {
-				process.exitCode = process.cmd.ProcessState.ExitCode()
+			if cmd.ProcessState != nil {
+				process.setExitCode(cmd.ProcessState.ExitCode())
 			}
 
 			// drain input channel to unblock caller
@@ -172,15 +189,15 @@ func (process *Process) run() {
 		}
 	}
 
-	if err := process.cmd.Process.Kill(); err != nil {
+	if err := cmd.Process.Kill(); err != nil {
 		log.Printf("Converter (%s): Failed to kill process: %q", process.converterName, err)
 	}
-	if err := process.cmd.Wait(); err != nil {
+	if err := cmd.Wait(); err != nil {
 		if _, ok := err.(*exec.ExitError); !ok {
 			log.Printf("Converter (%s): Failed to wait for process: %q", process.converterName, err)
-			process.exitCode = -1
+			process.setExitCode(-1)
 			return
 		}
 	}
-	process.exitCode = process.cmd.ProcessState.ExitCode()
+	process.setExitCode(cmd.ProcessState.ExitCode())
 }
